@@ -46,6 +46,46 @@ def raise_condition(ev, exc):
     return ev.mkbool('or', disj)
 
 
+def bool_equiv(a, b, limit=10):
+    """are two guard formulas equivalent as PROPOSITIONAL formulas over their comparison atoms (Eq / NotEq of one polynomial are one atom and
+    its negation)?  True / False, or None when an atom count above `limit` or an uninterpreted part prevents the table"""
+    import itertools
+    from ..terms import Cond as _Cond
+    atoms = {}
+    def norm(x):
+        # -> ('T',) ('F',) ('v', key) ('not', f) ('and', fs) ('or', fs) ('ite', c, a, b)
+        if x is True: return ('T',)
+        if x is False: return ('F',)
+        if isinstance(x, _Cond): return ('ite', norm(x.g), norm(x.a), norm(x.b))
+        if isinstance(x, Opq) and x.k:
+            h = x.k[0]
+            if h == 'not': return ('not', norm(x.k[1]))
+            if h in ('and', 'or'): return (h, [norm(y) for y in x.k[1:]])
+            if h == 'cmp' and x.k[1] == 'NotEq': return ('not', norm(Opq('cmp', 'Eq', *x.k[2:])))
+            k = repr(tkey(x))
+            if h == 'cmp' and x.k[1] == 'Eq' and len(x.k) == 3 and isinstance(x.k[2], Poly):
+                k = min(repr(x.k[2].key()), repr(x.k[2].neg().key()))
+            atoms.setdefault(k, len(atoms)); return ('v', k)
+        return None
+    fa, fb = norm(a), norm(b)
+    def bad(f): return f is None or (isinstance(f, tuple) and any(bad(y) for y in (f[1] if f[0] in ('and', 'or') else f[1:]) if isinstance(y, (tuple, list)) or y is None))
+    if bad(fa) or bad(fb) or len(atoms) > limit: return None
+    def val(f, env_):
+        h = f[0]
+        if h == 'T': return True
+        if h == 'F': return False
+        if h == 'v': return env_[f[1]]
+        if h == 'not': return not val(f[1], env_)
+        if h == 'and': return all(val(y, env_) for y in f[1])
+        if h == 'or': return any(val(y, env_) for y in f[1])
+        if h == 'ite': return val(f[2], env_) if val(f[1], env_) else val(f[3], env_)
+    keys = list(atoms)
+    for bits in itertools.product((False, True), repeat=len(keys)):
+        env_ = dict(zip(keys, bits))
+        if val(fa, env_) != val(fb, env_): return False
+    return True
+
+
 def run(rep, prog, tier):
     from .hidden import no_hidden_state
     rep.rule('R19.state', 'no hidden state in the anchored modules: no function writes a module-level object, no caching decorator / cached property')
@@ -174,10 +214,31 @@ def invariants(rep, prog):
         if not hits:
             rep.ob('R19.invariants', f'Circuit:{exc}', False, f'no path raises {exc}', site); continue
         if len(good) != len(hits):
+            # the raise may be reached through a chain of tests instead of one guard: compare the whole condition (paths and guards) with the
+            # specification as propositional formulas over their comparison atoms
+            total = raise_condition(ev, exc)
+            ne = ev.negate(empty)
+            verdicts = []
+            for fsrc in forms:
+                F = evs.truth(spec(evs, fsrc, env, m))
+                verdicts += [bool_equiv(total, F), bool_equiv(total, evs.mkbool('and', [ne, F]))]
+            if True in verdicts:
+                rep.ob('R19.invariants', f'Circuit:{exc}', True, f'raises {exc} exactly under the specified condition (on every path of a non-empty circuit)', site); continue
+        if len(good) != len(hits):
             bad = [r for r in hits if r not in good][0]
             rep.ob('R19.invariants', f'Circuit:{exc}', None if has_opaque(bad['guard']) else False, f"raises {exc} under {bad['guard']!r:.200}", site); continue
         cover = reduce_pcs([r['pc'] for r in good])
         ok = cover <= allowed and bool(cover)
+        if not ok and cover:
+            # paths that end in ANOTHER of the specified exceptions need not reach this test: (paths of this raise) OR (conditions of the
+            # other raises) must cover every non-empty circuit
+            lits = {}
+            for r in good:
+                for g, pol in r['pc']: lits[(repr(tkey(g)), pol)] = g if pol else ev.negate(g)
+            C = [evs.mkbool('and', [lits[x] for x in sorted(pc)]) if pc else True for pc in cover]
+            others = [raise_condition(ev, e2) for e2 in want if e2 != exc]
+            whole = evs.mkbool('or', C + [o for o in others if o is not None])
+            if True in (bool_equiv(whole, True), bool_equiv(whole, ev.negate(empty))): ok = True
         rep.ob('R19.invariants', f'Circuit:{exc}', True if ok else False,
                f'raises {exc} on every path of a non-empty circuit' if ok else f'{exc} is only raised on paths {sorted(map(sorted, cover))!r:.300}', site)
 
@@ -275,7 +336,15 @@ DELEGATES = QUERY_PREFIX + ('index', 'get_element')
 
 def _validates(node, idname, follow=None, consts=None) -> str | None:
     """does this statement/expression validate identifier `idname`? returns a reason or None"""
+    # a comprehension / loop variable that runs over a display of delegated queries: (q(id) for q in (self.get_voltage, self.get_current))
+    local_delegates = set()
     for n in ast.walk(node):
+        if isinstance(n, (ast.comprehension, ast.For)) and isinstance(n.target, ast.Name) and isinstance(n.iter, (ast.Tuple, ast.List)) and n.iter.elts:
+            lasts = [(e_.attr if isinstance(e_, ast.Attribute) else getattr(e_, 'id', '')) for e_ in n.iter.elts]
+            if all(l_ and (l_.startswith(DELEGATES) or l_ in DELEGATES) for l_ in lasts): local_delegates.add(n.target.id)
+    for n in ast.walk(node):
+        if isinstance(n, ast.Call) and isinstance(n.func, ast.Name) and n.func.id in local_delegates and any(idname in names_in(a) for a in list(n.args) + [k.value for k in n.keywords]):
+            return f'delegated to each query of a display through `{n.func.id}`'
         # getattr(obj, q)(id) where q is a parameter bound to a literal query name at the call site
         if isinstance(n, ast.Call) and isinstance(n.func, ast.Call) and getattr(n.func.func, 'id', '') == 'getattr' and len(n.func.args) == 2 \
                 and any(idname in names_in(a) for a in n.args):
@@ -293,6 +362,13 @@ def _validates(node, idname, follow=None, consts=None) -> str | None:
                 fn = n.func.attr if isinstance(n.func, ast.Attribute) else getattr(n.func, 'id', '')
                 if fn.startswith(DELEGATES) or fn in DELEGATES:
                     return f'delegated to {fn}()'
+                # operator.methodcaller('get_voltage', id): the delegated query, applied later to each solution
+                if fn == 'methodcaller' and n.args and isinstance(n.args[0], ast.Constant) and isinstance(n.args[0].value, str) \
+                        and (n.args[0].value.startswith(DELEGATES) or n.args[0].value in DELEGATES) and any(idname in names_in(a) for a in n.args[1:]):
+                    return f'delegated to {n.args[0].value}() through methodcaller'
+                # a call through a parameter that was bound to a delegated query at the call site (helper(getter, id): getter(obj, id))
+                if isinstance(n.func, ast.Name) and (consts or {}).get(n.func.id) == '@delegate':
+                    return f'delegated to the query passed as `{n.func.id}`'
                 if follow is not None:
                     r = follow(n, idname)
                     if r: return r
@@ -312,6 +388,11 @@ def _path_validates(path, idname, follow=None, consts=None):
                     if 'zero' in other or 'ground' in other: v = f'equals the reference label ({other})'
                 if (isinstance(op, ast.In) and val) or (isinstance(op, ast.NotIn) and not val):
                     if ast.unparse(tst.left) == idname: v = f'membership established ({ast.unparse(tst)[:50]})'
+            if v is None:
+                # the test itself is evaluated on this path: a raising lookup / delegated query inside it (e.g. under a walrus) validates
+                only_membership = isinstance(tst, ast.Compare) and len(tst.ops) == 1 and isinstance(tst.ops[0], (ast.In, ast.NotIn)) and ast.unparse(tst.left) == idname
+                sub = tst.comparators[0] if only_membership else tst
+                v = _validates(sub, idname, follow, consts)
             if v is None and isinstance(tst, ast.Call) and val:
                 fnm = tst.func.attr if isinstance(tst.func, ast.Attribute) else getattr(tst.func, 'id', '')
                 argn = set()
@@ -350,6 +431,26 @@ def _follower(prog, m, cls, depth=0, seen=()):
         elif isinstance(f, ast.Name):
             r = prog.resolve(m, f.id)
             if r and r[0] == 'func': target = (r[1], r[2])
+        if target is None and isinstance(f, ast.Attribute) and not (isinstance(f.value, ast.Name) and f.value.id == 'self'):
+            # a method of another object of the package (a helper object built from self): followed when the method name is unique in the package
+            cands = [(fm, fc, x) for fm in prog.modules.values() for fc in fm.defs.values() if isinstance(fc, ast.ClassDef)
+                     for x in fc.body if isinstance(x, ast.FunctionDef) and x.name == f.attr]
+            if len(cands) == 1:
+                tm_, tc_, tx_ = cands[0]
+                params_ = [a.arg for a in tx_.args.args][1:]
+                pn_ = None
+                for i, a in enumerate(call.args):
+                    if isinstance(a, ast.Name) and a.id == idname and i < len(params_): pn_ = params_[i]
+                for k in call.keywords:
+                    if isinstance(k.value, ast.Name) and k.value.id == idname and k.arg in params_: pn_ = k.arg
+                if pn_ is not None and id(tx_) not in seen:
+                    try:
+                        bad, allp = _unvalidated_path(tx_, pn_, _follower(prog, tm_, tc_, depth + 1, seen + (id(tx_),)), {})
+                    except TooManyPaths:
+                        return None
+                    if bad is None and any(p[-1][0] == 'return' for p in allp):
+                        return f'delegated to {tc_.name}.{tx_.name}() which validates `{pn_}` on each returning path'
+            return None
         if target is None or id(target[1]) in seen: return None
         tm, tf = target
         params = [a.arg for a in tf.args.args][1 if is_method else 0:]
@@ -364,6 +465,13 @@ def _follower(prog, m, cls, depth=0, seen=()):
             if isinstance(a, ast.Constant) and isinstance(a.value, str) and i < len(params): consts[params[i]] = a.value
         for k in call.keywords:
             if isinstance(k.value, ast.Constant) and isinstance(k.value.value, str) and k.arg in params: consts[k.arg] = k.value.value
+        def is_delegate(a_):
+            last = a_.attr if isinstance(a_, ast.Attribute) else (a_.id if isinstance(a_, ast.Name) else '')
+            return bool(last) and (last.startswith(DELEGATES) or last in DELEGATES)
+        for i, a in enumerate(call.args):
+            if i < len(params) and is_delegate(a): consts[params[i]] = '@delegate'
+        for k in call.keywords:
+            if k.arg in params and is_delegate(k.value): consts[k.arg] = '@delegate'
         try:
             bad, allp = _unvalidated_path(tf, pname, _follower(prog, tm, cls if is_method else None, depth + 1, seen + (id(tf),)), consts)
         except TooManyPaths:
